@@ -150,6 +150,16 @@ def dense_spec(rng, nt=None, nc=None, ns=None, nsw=None, curated=None, whiten=No
         spec['params_extra'] = dict(n_closest_channels=rng.pick([1, 2, 3]))
         if rng.random() < .4:
             spec['params_extra']['amplitude_threshold'] = rng.pick([0.25, 0.5])
+    if rng.random() < .3:
+        # files a sorter leaves next to the dataset whose names come close to the ones the loader reads
+        # (KiloSort2 writes templates_ind.npy next to dense templates; backups; unwhitened copies): not part of the
+        # dataset, the loaded model is the same with and without them
+        near = dict([('templates_ind.npy', ('int32', [list(range(nc)) for _ in range(nt)])),
+                     ('templates_unw.npy', ('float32', [[[0.] * nc] * nsw] * nt)),
+                     ('channel_map_orig.npy', ('int32', list(range(nc))[::-1])),
+                     ('whitening_mat_dat.npy', ('float64', [[2. if i == j else 0. for j in range(nc)] for i in range(nc)])),
+                     ('amplitudes_raw.npy', ('float64', [3.] * ns))])
+        spec['extra_npy'] = {k: near[k] for k in rng.sample(sorted(near), rng.randrange(1, 3))}
     if rng.random() < .35:
         # non-default scaling of unwhitened templates (params.py entry), a power of two or a small integer
         spec['template_scaling'] = rng.pick([2.0, 0.5, 20.0, 4.0])
